@@ -16,7 +16,10 @@ SCAL = [{"relname": "Fedora", "relshort": "F", "relver": "22", "bpname": "Red Ha
          "lpname": "x", "lpshort": "X", "lpver": "1", "date": "20380119"},
         # a version that looks like a date (snapshot streams): the compose ID then holds two 8-digit fields
         {"relname": "Snapshots", "relshort": "Snap", "relver": "20240101", "bpname": "Base OS", "bpshort": "BaseOS", "bpver": "20231231",
-         "lpname": "Layer", "lpshort": "Layer", "lpver": "20240101.1", "date": "20240315"}]
+         "lpname": "Layer", "lpshort": "Layer", "lpver": "20240101.1", "date": "20240315"},
+        # numeric versions whose components carry leading zeros (calendar versions): text, not numbers
+        {"relname": "Cal", "relshort": "Cal", "relver": "2024.01", "bpname": "Base", "bpshort": "B", "bpver": "08",
+         "lpname": "Zero", "lpshort": "Z", "lpver": "7.00", "date": "20240131"}]
 RESPIN = {"r0": 0, "r7": 7, "rbig": 10 ** 7 + 3}
 # the 14 documented path categories (doc/composeinfo-1.1.rst) - NOT read from the working tree, so that a category
 # dropped symmetrically from reader and writer is seen
